@@ -244,6 +244,29 @@ fn primary_with_signature(pf: &[&'static str]) -> String {
     }
 }
 
+/// `a` with the keys (at every record level) that only `b` has
+fn mix(a: &Val, b: &Val) -> Val {
+    match (a, b) {
+        (Val::Rec(x), Val::Rec(y)) => {
+            let mut out = x.clone();
+            for (k, v) in y {
+                match out.get(k) {
+                    None => {
+                        out.insert(k.clone(), v.clone());
+                    }
+                    Some(w) => {
+                        let m = mix(w, v);
+                        out.insert(k.clone(), m);
+                    }
+                }
+            }
+            Val::Rec(out)
+        }
+        (Val::List(x), Val::List(y)) if x.len() == y.len() => Val::List(x.iter().zip(y.iter()).map(|(p, q)| mix(p, q)).collect()),
+        _ => a.clone(),
+    }
+}
+
 // ---------------------------------------------------------------- member enumeration (C02)
 
 pub struct Enum<'w> {
@@ -675,6 +698,68 @@ fn check_doc(prop: &str, rep: &Reporter, sch: &Sch, doc: &ExecDoc, text: &str, c
                     break;
                 }
             }
+            // mixed responses: the keys the operation returns under one assignment of its Boolean variables, plus the
+            // keys it returns only under another one (same runtime object types, same data). Such a value reads fine
+            // through any branch that does not mention the extra keys; the `key?: never` entries of the emitted
+            // branches exist to keep the assignments apart. When no execution returns the mixture, the type must not admit it.
+            // Only where every record of the response has one possible object type (no field of interface or union type):
+            // then all branches of each emitted union belong to that type. Between branches of different object types
+            // TypeScript offers nothing but `__typename` to keep them apart, and the mixture would be read through the
+            // other type's branch.
+            let concrete_only = parents.len() == 1 && {
+                fn ok(sch: &Sch, frags: &BTreeMap<String, (&crate::gql::Name, &SelSet)>, sel: &SelSet, ty: &str, depth: usize) -> bool {
+                    depth < 12
+                        && sel.items.iter().all(|s| match s {
+                            Sel::Field { name, sel: Some(sub), .. } => match sch.field(ty, &name.s) {
+                                Some(fd) => sch.kind(fd.ty.base()) == Some(TsKind::Object) && ok(sch, frags, sub, fd.ty.base(), depth + 1),
+                                None => false,
+                            },
+                            Sel::Field { .. } => true,
+                            Sel::Inline { sel: sub, .. } => ok(sch, frags, sub, ty, depth + 1),
+                            Sel::Spread { name, .. } => match frags.get(&name.s) {
+                                Some((_, sub)) => ok(sch, frags, sub, ty, depth + 1),
+                                None => false,
+                            },
+                        })
+                }
+                ok(sch, &frags, sel, &parents[0], 0)
+            };
+            if concrete_only && !vars.is_empty() && vars.len() <= 3 {
+                'mixed: for parent in &parents {
+                    let run = |mask: u32| {
+                        let sigma: BTreeMap<String, bool> = vars.iter().enumerate().map(|(i, n)| (n.clone(), mask >> i & 1 == 1)).collect();
+                        let ex = Exec { sch, frags: frags.clone(), sigma, scalars: scalar_values() };
+                        let dv = Dev::default();
+                        ex.execute(&mut Chooser::new(&dv), parent, &[sel])
+                    };
+                    let rs: Vec<Val> = (0..(1u32 << vars.len())).map(run).collect();
+                    for (i, a) in rs.iter().enumerate() {
+                        for (j, b) in rs.iter().enumerate() {
+                            if i == j {
+                                continue;
+                            }
+                            let m = mix(a, b);
+                            if rs.contains(&m) {
+                                continue;
+                            }
+                            cnt.members.fetch_add(1, Ordering::Relaxed);
+                            if parents.iter().any(|p| r.object(&m, p, &[sel])) {
+                                continue;
+                            }
+                            if let Ok(true) = loaded.world.member(&m, &ty) {
+                                let path = deepest_ref_failure(&mut r, &m, &parents, sel);
+                                let pf = path_features(doc, sel, &path);
+                                rep.report(Violation {
+                                    key: format!("admits_mixture_of_two_assignments[{}]", primary_with_signature(&pf)),
+                                    what: format!("{alias} admits a value that mixes the keys of two assignments of the Boolean variables, which no execution of the {what} returns"),
+                                    case: case(json!({"value": m.show(), "assignment_a": i, "assignment_b": j, "response_a": a.show(), "response_b": b.show(), "parent_object": parent, "type": loaded.world.canon(&ty, 6).map(|t| show_t(&t)).unwrap_or_default()})),
+                                });
+                                break 'mixed;
+                            }
+                        }
+                    }
+                }
+            }
             if ms.is_empty() {
                 rep.report(Violation { key: "uninhabited".to_string(), what: format!("{alias} has no member at all"), case: case(json!({"dts": loaded.dts})) });
             }
@@ -774,6 +859,35 @@ pub fn fragment_reuse_family() -> Vec<String> {
     out
 }
 
+/// A conditional fragment (untyped / typed inline, named spread; `@skip` / `@include` on a variable) whose fields are plain,
+/// aliased to a name the object does not have, or nested, next to a sibling that tells the two assignments of the
+/// variable apart.
+pub fn conditional_fragment_family() -> Vec<String> {
+    let forms = ["...{c} { {i} }", "... on User{c} { {i} }", "... on Named{c} { {i} }", "...CF{c}"];
+    let conds = [" @skip(if: $b)", " @include(if: $b)"];
+    let inners = ["name", "nick: name", "nick: name age", "mate: best { id }", "mate: best { pal: name }", "... on User { nick: name }"];
+    let siblings = ["", "id", "id @include(if: $b)", "id @skip(if: $b)", "name", "nick: name @skip(if: $b)", "kind @include(if: $b)"];
+    let mut out = vec![];
+    for parent in ["u", "node(id: \"1\")"] {
+        for f in forms {
+            if parent != "u" && f.starts_with("...{c}") {
+                continue;
+            }
+            for c in conds {
+                for i in inners {
+                    for sib in siblings {
+                        let body = f.replace("{c}", c).replace("{i}", i);
+                        let (open, close) = if parent == "u" { ("u {", "}") } else { ("node(id: \"1\") { ... on User {", "} }") };
+                        let frag = if f.starts_with("...CF") { format!("fragment CF on User {{ {i} }}\n") } else { String::new() };
+                        out.push(format!("query Q($b: Boolean!) {{ {open} {body} {sib} {close} }}\n{frag}"));
+                    }
+                }
+            }
+        }
+    }
+    out
+}
+
 /// Type conditions of every kind under every abstract (and one concrete) parent, with `__typename` selected so that the
 /// branches of the emitted union can be told apart: single conditions (inline and named) and all pairs.
 pub fn type_condition_family() -> Vec<String> {
@@ -851,6 +965,7 @@ pub fn run(args: &RunArgs, prop: &str) -> i32 {
     fam.extend(fragment_reuse_family());
     let reuse_n = fam.len() - same_key_n;
     fam.extend(type_condition_family());
+    fam.extend(conditional_fragment_family());
     let fam_checked = AtomicU64::new(0);
     crate::explore::par_for(fam.len(), args.threads, |i| {
         let text = &fam[i];
